@@ -92,6 +92,9 @@ def apply(c, act):
         c.remove_block(act['n'])
     elif a == 'connect':
         other = build(act['other'] if 'other' in act else LIB[act['lib'] - 1])
+        if act.get('oclone'):
+            from . import gen as _gen
+            other = _gen.clone(other, act['oclone'])      # the attached circuit was deep-copied / pickled before
         before = project(other)
         via = act.get('via', 'connect_circuit')
         kw = {'name': act['name'], 'add_prefix': act['pfx']}
@@ -118,7 +121,14 @@ def apply(c, act):
         sub = build(act['sub'])
         c.replace_subcircuit(sub, dict(act['im']), dict(act['om']))
     elif a == 'copy':
-        c = _copy.copy(c)
+        # how: 'deep' / 'pickle' - a copy is a copy whatever made it
+        if act.get('how') == 'deep':
+            c = _copy.deepcopy(c)
+        elif act.get('how') == 'pickle':
+            import pickle as _pickle
+            c = _pickle.loads(_pickle.dumps(c))
+        else:
+            c = _copy.copy(c)
     else:
         raise ValueError(a)
     return c
